@@ -9,9 +9,26 @@ from enum_cf import Enumerator, encode_body, sigma_full, sigma_ctl, sigma_typed
 BATCH = 2000
 
 
-def batches_of(label, symbols, params, locals_groups, result, n, inputs, imports, exact=False, context=None):
+_PROBES = None
+
+
+def probe_pool():
+    """(sorted hashes, constants): value-returning probe functions `local.get 0; i32.const c; i32.add` and the SHA-1 of their code entries.
+    The translator writes the functions of a file in the order of the SHA-1 of their code entries, so a probe whose hash lies just above the hash
+    of an enumerated body is written right after it: whatever a body leaves behind in the translator (operands on the type stack at a
+    `return`/`br`/`unreachable`, label stack, declarations) then meets a function whose result must still be right."""
+    global _PROBES
+    if _PROBES is None:
+        import hashlib
+        hs = sorted((hashlib.sha1(b'\x00' + local_get(0) + i32_const(c) + op(0x6a) + END).digest(), c) for c in range(1, 60001))
+        _PROBES = ([h for h, c in hs], [c for h, c in hs])
+    return _PROBES
+
+
+def batches_of(label, symbols, params, locals_groups, result, n, inputs, imports, exact=False, context=None, probes=False):
     """generator of Batches covering every valid body with <= n symbols (exact: only those with exactly n);
-    context = (prefix, suffix): the n symbols are enumerated inside that fixed context"""
+    context = (prefix, suffix): the n symbols are enumerated inside that fixed context;
+    probes: put a value-returning probe function right behind every body in emission order (see probe_pool)"""
     locs = ''.join(t * c for c, t in locals_groups)
     E = Enumerator(symbols, params, locs, result)
     if context:
@@ -36,7 +53,24 @@ def batches_of(label, symbols, params, locals_groups, result, n, inputs, imports
         # bodies may contain (dead) calls of functions 5 and 11 of their module: keep every module at 12 or more functions of this signature
         for k in range(len(part), 12):
             m.add_func(params, result, [(c, TCH[t]) for c, t in locals_groups], encode_body(part[0]))
-        yield Batch(m.encode(), cases, [('explicit', inputs)], [], imports)
+        bt = Batch(m.encode(), cases, [('explicit', inputs)], [], imports)
+        if probes:
+            import hashlib, bisect
+            ph, pc = probe_pool()
+            lv = b''.join(uleb(c) + bytes([TCH[t]]) for c, t in locals_groups)
+            lv = uleb(len(locals_groups)) + lv
+            hv = sorted(set(hashlib.sha1(lv + encode_body(seq) + END).digest() for seq in part))
+            used = set(); followed = 0
+            for i, h in enumerate(hv):
+                j = bisect.bisect_right(ph, h)
+                if j < len(ph) and (i + 1 == len(hv) or ph[j] < hv[i + 1]) and pc[j] not in used:
+                    used.add(pc[j]); followed += 1
+            for c in sorted(used):
+                m.add_func('ii', 'i', (), local_get(0) + i32_const(c) + op(0x6a), export='p%d' % c)
+                cases.append(Case('p%d' % c, 'ii', 'i', 0, -1, 'probe local.get 0; i32.const %d; i32.add (written right after an enumerated body)' % c))
+            bt = Batch(m.encode(), cases, [('explicit', inputs)], [], imports)
+            bt.followed = followed; bt.bodies = len(hv)
+        yield bt
 
 
 def main(tier):
@@ -57,6 +91,10 @@ def main(tier):
     for n in range(1, nfull + 1):
         pass
     plans.append(('full', S, p, [(1, 'i'), (1, 'I')], r, nfull, in_ii, mark, False))
+    # state carried from one function into the next: every valid body (value-returning, and VOID bodies that may end with operands left on
+    # the stack) immediately followed, in emission order, by a probe function whose result is checked
+    plans.append(('full+probe-after-each', S, p, [(1, 'i'), (1, 'I')], r, nfull - 1, in_ii, mark, False, None, True))
+    plans.append(('void+probe-after-each', S, p, [(1, 'i'), (1, 'I')], '', nfull - 1, in_ii, mark, False, None, True))
     S2, p2, l2, r2 = sigma_ctl()
     plans.append(('ctl', S2, p2, [], r2, nctl, in_ii, [], False))
     # local declaration groupings; the second one starts with an EMPTY group of another type (count 0 is a valid encoding)
@@ -101,7 +139,7 @@ def main(tier):
                 else:
                     chk.cov['exhaustive'] = False
         for plan in plans:
-            (label, S_, p_, g_, r_, n_, inp, imps, exact_), ctx_ = plan[:9], (plan[9] if len(plan) > 9 else None)
+            (label, S_, p_, g_, r_, n_, inp, imps, exact_), ctx_, probes_ = plan[:9], (plan[9] if len(plan) > 9 else None), (plan[10] if len(plan) > 10 else False)
             per.setdefault(label, {'bodies': 0, 'evaluations': 0, 'nontrivial': 0})['max_instructions'] = n_
             per[label]['exactly_n_only'] = exact_
             first = True
@@ -110,7 +148,10 @@ def main(tier):
                 continue
             if ctx_:
                 per[label]['context'] = '%s [ <= %d instructions ] %s' % (' '.join(x.name for x in ctx_[0]), n_, ' '.join(x.name for x in ctx_[1]))
-            for b in batches_of(label, S_, p_, g_, r_, n_, inp, imps, exact_, ctx_):
+            for b in batches_of(label, S_, p_, g_, r_, n_, inp, imps, exact_, ctx_, probes_):
+                if probes_:
+                    per[label]['bodies_followed_by_a_probe'] = per[label].get('bodies_followed_by_a_probe', 0) + b.followed
+                    per[label]['distinct_bodies'] = per[label].get('distinct_bodies', 0) + b.bodies
                 if time.time() > deadline:
                     capped = True
                     per[label]['capped'] = True
@@ -118,7 +159,9 @@ def main(tier):
                 if first:
                     chk.sample({'alphabet': label, 'body': b.cases[-1].desc, 'inputs': 'all %d vectors' % len(inp)})
                     first = False
-                pending.append((label, b, ex.submit(run_batch, b, w2c2=w2c2)))
+                # probe plans: automatic variables start with a fixed pattern, so a result slot that is never written reads the same wrong value on every run
+                kw_ = {'cflags': ('-O0', '-ftrivial-auto-var-init=pattern')} if probes_ else {}
+                pending.append((label, b, ex.submit(run_batch, b, w2c2=w2c2, **kw_)))
                 drain(NCPU * 3)
         drain(0)
     if capped:
@@ -130,7 +173,7 @@ def main(tier):
                        'ctl: 13 symbols, typed-*: carried value of type i64/f32/f64 with mixed-type params and locals in several declaration '
                        'groupings; ctx:*: every valid filling of <= N instructions over a 25-symbol alphabet (incl. br_table with an empty label vector and dead calls whose index byte is the opcode of else / end) of six fixed contexts - dead code inside a block followed by live code, dead code in '
                        'either arm of a live if, above extra operands inside/below a value-carrying block, inside a loop nested in a block); each body runs on every input vector; return value, trap and ordered host-call trace are compared with the '
-                       'reference; a body is non-trivial iff its reference outcome is not constant over the inputs')
+                       'reference; a body is non-trivial iff its reference outcome is not constant over the inputs; *+probe-after-each: every valid body (value-returning / void) up to N-1 with a value-returning probe function placed right behind it in emission order (SHA-1 of the code entry), the probe results are checked: nothing a body leaves in the translator may reach the next function')
     chk.assumptions += ['bodies longer than the completed N are not covered', 'reference = own interpreter validated against the spec test-suite']
     return chk.finish()
 
